@@ -80,7 +80,9 @@ func main() {
 		r.Floors["distinct"] = 10
 		r.Finish()
 	}
-	edit := func(s string) string { return strings.Replace(s, "waitTxMs=100000000\n", "waitTxMs=10\n", 1) }
+	edit := func(s string) string {
+		return strings.Replace(strings.Replace(s, "waitTxMs=20\n", "waitTxMs=10\n", 1), "minerstart=false\n", "minerstart=true\n", 1)
+	}
 	env, err := treex.NewEnv(edit)
 	if err != nil {
 		fmt.Println("HARNESS-ERROR", err)
